@@ -16,6 +16,8 @@
  R6 group-locality: where a group table reads the counted votes of nonreporting units from a second table by position (gaussian
     aggregate floor inside assign(lambda)), both tables have the same row signature (sorted by the keys, fresh range index), so a
     partial count only reaches the floor of its own group;
+ R8 count-blind: the frame a unit below the threshold is a row of (reporting / nonreporting / each exclusion reason) does not
+    depend on its partial count - complete truth table over the count-derived atoms of the unit split;
  R7 pev-present: the data handler fills a missing percent_expected_vote of the joined frame with a number - a unit kept as not
     reporting must not carry a NaN into the bootstrap model's clip bounds, whose NaN the 0/1 group products spread to every group.
 """
@@ -437,6 +439,62 @@ def _historical(ctx):
                  "estimand; no estimate depends on it (R3), so this is not counted against C10")
 
 
+def _count_blind(ctx, us, items):
+    """R8.count-blind: WHICH frame a unit below the reporting threshold is a row of must not depend on its partial count. Frame
+    membership is shared state: the bootstrap model assigns its random draws and indicator rows by position in the nonreporting
+    frame, so a unit that leaves (or enters) that frame because of its own partial count shifts the draws of every later unit.
+    Decided on the truth table of the unit split: over all per-unit assignments in which the unit is below the threshold, the
+    membership formulas of the reporting frame, the nonreporting frame and every exclusion reason take the same value for every
+    valuation of the count-derived atoms (comparisons of turnout_factor / results_* columns, their missing-value atoms and the
+    outlier-model flags) once the other atoms are fixed."""
+    forms = [("reporting frame", us.fR), ("nonreporting frame", us.fN)] + \
+            [(f"exclusion '{cat}'", rs.And(cond, us.rs.member(fr))) for cond, fr, cat in items]
+    bools, rels = rs.variables(*[f for _, f in forms])
+    pev = [k for k in rels if k[1] == "percent_expected_vote"]
+    if len(pev) != 1:
+        raise AnalysisError(f"{us.f.where()}: the unit split compares percent_expected_vote with {len(pev)} bounds, expected the threshold only")
+
+    def counted(name):
+        if isinstance(name, tuple):  # relation key ('rel', column, bound)
+            return name[1] != "percent_expected_vote" and partial_name(("const", name[1]))
+        if name.startswith("na:"):
+            return name[3:] != "percent_expected_vote" and partial_name(("const", name[3:]))
+        return name.startswith("outlier:")
+    cb, cr = [b_ for b_ in bools if counted(b_)], [r for r in rels if counted(r)]
+    ob_, orr = [b_ for b_ in bools if not counted(b_)], [r for r in rels if not counted(r)]
+    ctx.sites("C10.R8.count-blind", len(cb) + len(cr), 3, "count-derived atoms of the unit split (turnout-factor limits, outlier flags)")
+    import itertools
+    for what, f in forms:
+        cf = rs.compile_formula(f)
+        bad, n = None, 0
+        for base in rs.assignments(ob_, orr):
+            if base[pev[0]] != "lt":
+                continue
+            seen = {}
+            for bv in itertools.product([False, True], repeat=len(cb)):
+                for rv in itertools.product(["lt", "eq", "gt"], repeat=len(cr)):
+                    a = dict(base); a.update(zip(cb, bv)); a.update(zip(cr, rv))  # noqa: E702
+                    n += 1
+                    v = cf(a)
+                    seen.setdefault(v, a)
+                    if len(seen) == 2:
+                        break
+                if len(seen) == 2:
+                    break
+            if len(seen) == 2:
+                bad = seen
+                break
+        if bad is None:
+            ctx.ob("C10.R8.count-blind", f"{us.f.qualname}|{what}: membership of a unit below the threshold ignores its count", True, us.f.where(),
+                   f"for a unit below the reporting threshold no count-derived atom decides membership ({n} truth-table rows)")
+        else:
+            diff = sorted(str(k) for k in bad[True] if bad[True][k] != bad[False][k])
+            ctx.ob("C10.R8.count-blind", f"{us.f.qualname}|{what}: membership of a unit below the threshold ignores its count", False, us.f.where(),
+                   f"a unit below the reporting threshold with [{rs.show_asg({str(k): v for k, v in bad[True].items()})}] is a row of the {what}, "
+                   f"and is not once {', '.join(diff)} change(s): its partial count decides which frame it is in, and with it the position "
+                   "(random draws, indicator rows) of every other unit of that frame")
+
+
 def _excluded(ctx):
     us = UnitSplit(ctx)
     unexpected, nonmod, wrappers, items = us.nonmodelled()
@@ -454,6 +512,7 @@ def _excluded(ctx):
            else "percent_expected_vote of a baseline unit can stay missing after the join: kept as 'not reporting', it gets NaN clip bounds in the "
                 "bootstrap model, a NaN prediction, and the 0/1 indicator products spread that NaN to every group (nan_to_num then reports margin 0 "
                 "and a NaN turnout for the state and for every county)")
+    _count_blind(ctx, us, items)
     for name, fr in (("reporting", us.fR), ("nonreporting", us.fN)):
         ok1, cex, n = rs.equivalent(rs.And(fr, fNm), rs.F)
         ok2, cex2, n2 = rs.equivalent(rs.And(fr, fUx), rs.F)
